@@ -101,6 +101,9 @@ fn compile(args: &[&str]) -> String {
     let dest = args[2].to_string();
     let format = args[3] == "1";
     let prefix = String::from_utf8(unhex(args[4])).unwrap();
+    // optional 6th argument: further builder calls, in the order given, separated by ';'
+    //   d=<name,name,..>  .derives(..)      u=<type>  .user_context_type(..)
+    let extra: Vec<String> = if args.len() > 5 && !args[5].is_empty() { args[5].split(';').map(|x| x.to_string()).collect() } else { Vec::new() };
     let r = panic::catch_unwind(move || {
         let mut c = if mode == "dir" { Compile::directory(&src) } else { Compile::file(&src) };
         if dest != "-" {
@@ -110,6 +113,13 @@ fn compile(args: &[&str]) -> String {
             c = c.format();
         }
         c = c.prefix(prefix);
+        for e in &extra {
+            if let Some(d) = e.strip_prefix("d=") {
+                c = c.derives(if d.is_empty() { Vec::new() } else { d.split(',').map(|x| x.to_string()).collect() });
+            } else if let Some(u) = e.strip_prefix("u=") {
+                c = c.user_context_type(u);
+            }
+        }
         c.run()
     });
     match r {
